@@ -206,9 +206,21 @@ def check_job(cfg, S, fw, dev, marks, start, end, want, accepted, complete_expec
     return P
 
 
+import multiprocessing as _mp
+
+SPLIT_STATUS = []                # status of the default execution of every configuration split so far (parent process)
+
+STUCK = _mp.Value("i", 0)        # executions that ran into the horizon / a deadlock so far (shared with the forked workers)
+STUCK_LIMIT = 400
+
+
 def _work(item):
     """item = (cfg, root prefix, bound, cap): explores the subtree below `root`."""
     cfg, root, bound, cap = item
+    if STUCK.value >= STUCK_LIMIT:
+        # hundreds of executions already failed to terminate (every one costs a full horizon): the verdict is in, the rest of
+        # the plan is skipped and reported as not covered
+        return [], 0, True, set(), 0, {}
     install_line_points()
     found = {}
     stats = {"points": 0, "wires": set(), "statuses": {}}
@@ -218,6 +230,9 @@ def _work(item):
         stats["points"] += ex.S.steps
         stats["wires"].add(digest(ex.dev.log))
         stats["statuses"][ex.S.status] = stats["statuses"].get(ex.S.status, 0) + 1
+        if ex.S.status != "done":
+            with STUCK.get_lock():
+                STUCK.value += 1
         problems = check_execution(cfg, ex, marks, leaked)
         for sig, msg in problems:
             if sig not in found:
@@ -234,6 +249,9 @@ def split(cfg, bound, cap):
     single deep search is spread over all cores. Also checks replay determinism of the default schedule."""
     install_line_points()
     a, _, _ = run_execution(cfg, [])
+    SPLIT_STATUS.append(a.S.status)
+    if a.S.status != "done":
+        return [(cfg, [], 0, None)], False        # the default execution does not terminate: _work reports it, nothing to refine
     b, _, _ = run_execution(cfg, [])
     nondet = a.dev.log != b.dev.log or a.S.trace != b.S.trace
     items = [(cfg, [], 0, None)]
@@ -368,12 +386,23 @@ def run(tier, seed):
     res = Result("model_checking")
     plan_items = plan(tier)
     work, owner = [], []
+    stuck_defaults = 0
     for pi, (cfg, bound, cap) in enumerate(plan_items):
+        if stuck_defaults >= 6:
+            # the default executions of several configurations do not even terminate (each one costs a full horizon, and this
+            # phase runs in the parent process): the rest of the plan is left out - the configurations split so far carry the verdict
+            res.harness_errors = res.harness_errors      # (nothing to add: the violations are reported below)
+            skipped_plan = len(plan_items) - pi
+            break
         items, nondet = split(cfg, bound, cap)
+        if SPLIT_STATUS and SPLIT_STATUS[-1] != "done":
+            stuck_defaults += 1
         if nondet:
             res.harness_errors.append(f"default schedule of {cfg} is not reproducible")
         work += items
         owner += [pi] * len(items)
+    else:
+        skipped_plan = 0
     order = sorted(range(len(work)), key=lambda i: -(work[i][2] * 2 + work[i][0]["line_points"]))
     results = pmap(_work, [work[i] for i in order], chunksize=1)
     execs = points = 0
@@ -409,7 +438,8 @@ def run(tier, seed):
                  "transmissions) every schedule with at most `bound` deviations from the default is executed to completion; scheduling points at every synchronisation/device "
                  "operation (sync-level) and additionally at every source line touching shared attributes (line-level); states = distinct interleaved wire logs, transitions = "
                  "scheduling steps, executions by bound in 'executions_by_bound'"),
-        "exhaustive": not capped,
+        "exhaustive": not capped and not skipped_plan,
+        "plan_items_skipped_after_non_terminating_defaults": skipped_plan,
         "exhaustive_note": ("every schedule within the stated deviation bound of every listed configuration was run" if not capped else
                             "some configurations hit their execution cap (listed in caps_hit); below the cap the DFS order covers all schedules with fewer deviations first"),
         "caps_hit": capped, "configurations": len(items), "executions_by_bound": by_bound, "termination_statuses": statuses,
